@@ -65,6 +65,7 @@ type Group struct {
 	Files   []string // absolute harness file paths
 	Inits   []string
 	Scales  [][3]string // file, const name, new value
+	Tags    string      // build tags the package is loaded (and natively replayed) with
 	Entries []*HarnessSpec
 	Bounds  []string
 	Assumes []string
@@ -167,6 +168,8 @@ func discover() (map[string]*Group, error) {
 					if len(fs) == 3 {
 						g.Scales = append(g.Scales, [3]string{fs[0], fs[1], fs[2]})
 					}
+				case strings.HasPrefix(t, "//vcheck:tags "):
+					g.Tags = strings.TrimSpace(t[len("//vcheck:tags "):])
 				case strings.HasPrefix(t, "//vcheck:bounds "):
 					g.Bounds = append(g.Bounds, strings.TrimSpace(t[len("//vcheck:bounds "):]))
 				case strings.HasPrefix(t, "//vcheck:assume "):
@@ -337,6 +340,10 @@ func load(g *Group) (*Loaded, error) {
 		return nil, err
 	}
 	cfg := &packages.Config{Mode: packages.LoadAllSyntax, Dir: repoDir, Env: goEnv(), Overlay: ov}
+	if g.Tags != "" {
+		cfg.BuildFlags = []string{"-tags=" + g.Tags}
+		scaled = append(scaled, "build tags: "+g.Tags)
+	}
 	pat := "./" + g.Dir
 	if g.Dir == "." {
 		pat = "."
@@ -385,7 +392,7 @@ func solverName() string {
 
 // defaultInits are standard-library packages whose package-level variables
 // (io.EOF, bytes.ErrTooLarge, ...) the interpreted code compares against.
-var defaultInits = []string{"internal/oserror", "io", "bytes", "bufio", "encoding/binary", "io/fs", "github.com/cockroachdb/errors/oserror", "github.com/lni/vfs"}
+var defaultInits = []string{"internal/oserror", "io", "bytes", "bufio", "encoding/binary", "io/fs", "github.com/cockroachdb/errors/oserror", "github.com/lni/vfs", "github.com/golang/snappy"}
 
 // initFuncs returns the package initialisers to interpret before a harness
 // runs: a few standard-library packages whose variables are compared against,
@@ -566,7 +573,7 @@ func nativeReplay(g *Group, rf *ReplayFile, replayPath string) (bool, string) {
 	if g.Dir == "." {
 		pat = "."
 	}
-	cmd := exec.Command("go", "test", "-vet=off", "-count=1", "-timeout", "120s", "-run", "^TestVerifReplay$", "-overlay", ovp, pat)
+	cmd := exec.Command("go", "test", "-vet=off", "-count=1", "-timeout", "120s", "-tags", g.Tags, "-run", "^TestVerifReplay$", "-overlay", ovp, pat)
 	cmd.Dir = repoDir
 	cmd.Env = append(goEnv(), "VERIF_REPLAY="+replayPath, "VERIF_HARNESS="+rf.Harness)
 	out, _ := cmd.CombinedOutput()
@@ -631,7 +638,7 @@ func nativeSelftest(g *Group, samples []AgreeSample) (int, []string) {
 	got := map[int]string{}
 	var out []byte
 	for attempt := 0; attempt < 2 && len(got) == 0; attempt++ {
-		cmd := exec.Command("go", "test", "-vet=off", "-count=1", "-timeout", "600s", "-v", "-run", "^TestVerifSelftest$", "-overlay", ovp, pat)
+		cmd := exec.Command("go", "test", "-vet=off", "-count=1", "-timeout", "600s", "-tags", g.Tags, "-v", "-run", "^TestVerifSelftest$", "-overlay", ovp, pat)
 		cmd.Dir = repoDir
 		cmd.Env = append(goEnv(), "VERIF_SELFTEST="+sp)
 		out, _ = cmd.CombinedOutput()
